@@ -406,7 +406,18 @@ int janet_verify(JanetFuncDef *def) {
 
     if (def->bytecode_length == 0) return 1;
 
+    /* Header fields come from untrusted input (unmarshal, asm): keep them in the range the
+     * instruction encoding can address, so that frame size arithmetic cannot overflow. */
+    if (sc < 0 || sc > 0xFFFFFF) return 2;
+    if (def->arity < 0 || def->arity > sc) return 2;
+    if (def->min_arity < 0 || def->max_arity < 0) return 2;
     if (maxslot > sc) return 2;
+
+    /* An environment entry is either -1 (capture the parent's frame) or an index into the parent's
+     * environments (checked against the parent when the closure is created). */
+    for (i = 0; i < def->environments_length; i++) {
+        if (def->environments[i] < -1) return 10;
+    }
 
     /* Verify each instruction */
     for (i = 0; i < def->bytecode_length; i++) {
